@@ -92,11 +92,17 @@ def bool_trees(tier):
     return out
 
 
-def expr_model(trs, boolean=False):
+def lhs_trees(tier):
+    """Trees printed on the LEFT of the equation (`expr = y`), a literal or a call alone on the left included."""
+    tr = trees(tier)
+    return call_trees(tier) + tr[::(2 if tier == "thorough" else 5)] + [E.N("0"), E.N("1.5"), E.Un("-", E.N("1")), E.Bn("-", E.V("a"), E.V("b"))]
+
+
+def expr_model(trs, boolean=False, left=False):
     txt = "".join(E.pr(t) for t in trs)
     funcs = FUNCS if any(f + "(" in txt for f in ("f1", "f2", "f3")) else ""
     decl = "  Real a, b, c, d, x;\n  discrete Real dn;\n  Boolean bp, bq;\n" + "".join(f"  {'Boolean' if boolean else 'Real'} y{k};\n" for k in range(len(trs)))
-    eqs = "".join(f"  y{k} = {E.pr(t)};\n" for k, t in enumerate(trs))
+    eqs = "".join((f"  {E.pr(t)} = y{k};\n" if left else f"  y{k} = {E.pr(t)};\n") for k, t in enumerate(trs))
     return funcs + "model M\n" + decl + "equation\n" + eqs + "end M;\n"
 
 
@@ -132,7 +138,7 @@ ATTR_KINDS = {
     "Real": [("none", None), ("lit", "1.5"), ("neg", "-2.5"), ("ref", "p"), ("expr", "2 * p"), ("negref", "-p")],
     "Integer": [("none", None), ("lit", "3"), ("neg", "-4"), ("ref", "ip"), ("expr", "ip + 1")],
     "Boolean": [("none", None), ("lit", "true"), ("ref", "bp"), ("expr", "not bp")],
-    "String": [("none", None), ("lit", '"abc"'), ("ref", "sp")],
+    "String": [("none", None), ("lit", '"abc"'), ("ref", "sp"), ("markup", '" a<b & c>d \'q\' ]]> "'), ("non-ascii", '"5 \u00b5m \u2264 d"')],
 }
 ATTR_KINDS_MORE = {
     "Real": [("dneg", "-(-2.5)"), ("negexpr", "-(2 * p)"), ("sum", "p + 0.5"), ("longlit", "0.1234567891"), ("call", "sin(p)")],
@@ -207,10 +213,11 @@ WHEN_FORMS = {
     "cond-not": lambda e: e + [_when("not h >= 0", [COUNT])],
     "cond-sample": lambda e: e + [_when("sample(0, 0.5)", [COUNT])],
     "cond-pre": lambda e: e + [_when("pre(n) < 3 and b", [COUNT])],
+    "terminate": lambda e: e + [_when("h < -5", ['terminate("below ground & <lost>");']), _when("h < 0", [COUNT])],
     "assert": lambda e: e[:2] + ['assert(h > -1, "fell through");'] + e[2:] + [_when("h < 0", [COUNT])],
     "assert-only": lambda e: e + ['assert(h > -1, "fell through");', "assert(v < 100, \"fast\");"],
 }
-WHEN_QUICK_SKIP = ("two-same", "cond-not", "cond-pre", "assert-only")
+WHEN_QUICK_SKIP = ("two-same", "assert-only")
 INIT1, INIT2 = ["h = 1;"], ["h = 1;", "v = 2 * g;"]
 # name -> function(equation-section items) -> list of (section keyword, items)
 SECTION_LAYOUTS = {
@@ -266,6 +273,11 @@ MISC_MODELS = [
                         [("initial equation", ["w = 1;"]), ("equation", ["y = u * fp + pu;", "yi = ci;", "der(w) = -u;", _when("ub", ["dy = pre(dy) + w;", "di = pre(di) + ci;"])])])),
     ("function+when", FUNCS + _class("M", ["Real x(start = 1), z;", "discrete Real c;"], [("initial equation", ["z = f2(x, 1);"]),
                                                                                        ("equation", ["der(x) = f1(x);", "z = f3(x, x, 2);", _when("f2(x, z) > f2(x, z)", ["c = f1(pre(c));", "reinit(x, f3(1, 1, x));"])])])),
+    ("xml-vocabulary-names", _class("M", ["Real real(start = 1), local, apply, operator_, item = 2, value(start = 3) = real, name, equal, cond;", "parameter Real builtin = 1, component = builtin, modifier(start = 1) = 2;",
+                                          "discrete Real class_, equation_;", "Boolean true_, false_(start = false);"],
+                                    [("initial equation", ["real = local;"]), ("equation", ["der(real) = local * builtin;", "local = apply + component;", "apply = operator_ - modifier;", "operator_ = name;", "name = equal / cond;",
+                                                                                            "equal = 1;", "cond = 2;", "true_ = real > local;", "false_ = not true_;",
+                                                                                            _when("true_ and not false_", ["class_ = pre(equation_);", "equation_ = pre(class_) + value;"])])])),
     ("declaration-equations-only", _class("M", ["parameter Real k = 2;", "Real x = k * time;", "Real y(start = 1) = -x;", "Boolean b = x > y;", "Integer i = 3;", "discrete Real d = 4.5;"], [("initial equation", ["x = 0;"])])),
 ]
 
@@ -532,10 +544,10 @@ def work(item):
     kind, payload = item
     col = Collector()
     try:
-        if kind in ("expr", "bexpr"):
-            per = {k: f"expr:{E.pr(t)}" for k, t in enumerate(payload)}
-            check_text(col, "expr", expr_model(payload, boolean=(kind == "bexpr")), per)
-            col.sample({"equation": "y0 = " + E.pr(payload[0])}, 1)
+        if kind in ("expr", "bexpr", "lexpr"):
+            per = {k: ("lhs:" if kind == "lexpr" else "expr:") + E.pr(t) for k, t in enumerate(payload)}
+            check_text(col, "expr", expr_model(payload, boolean=(kind == "bexpr"), left=(kind == "lexpr")), per)
+            col.sample({"equation": (E.pr(payload[0]) + " = y0") if kind == "lexpr" else ("y0 = " + E.pr(payload[0]))}, 1)
         elif kind in ("sym", "symx"):
             per = {f"s{k}": cid for k, (cid, _) in enumerate(payload)}
             check_text(col, "sym", sym_model(payload, SYM_HEADER if kind == "symx" else ""), per)
@@ -565,14 +577,14 @@ def main():
         print(c.violations[:3])
         return 1 if c.violations else 0
     rep = Report(PROP, a.tier, "translation_validation", a.seed)
-    trs, ctrs, btrs = trees(a.tier), call_trees(a.tier), bool_trees(a.tier)
+    trs, ctrs, btrs, ltrs = trees(a.tier), call_trees(a.tier), bool_trees(a.tier), lhs_trees(a.tier)
     syms, symx = symbol_models(a.tier), symbol_cross(a.tier)
     structs = struct_models(a.tier)
 
     def chunks(kind, xs, n):
         return [(kind, xs[i:i + n]) for i in range(0, len(xs), n)]
     items = (chunks("struct", structs, STRUCT_BATCH) + chunks("symx", symx, SYM_BATCH) + chunks("expr", trs, BATCH) + chunks("expr", ctrs, BATCH)
-             + chunks("bexpr", btrs, BATCH) + chunks("sym", syms, BATCH))
+             + chunks("bexpr", btrs, BATCH) + chunks("lexpr", ltrs, BATCH) + chunks("sym", syms, BATCH))
     try:
         # the ANTLR parser builds its prediction cache on first use (seconds): do that once, before the workers are forked
         pipeline.parse_text(WARMUP)
@@ -601,7 +613,7 @@ def main():
     cov["functions_encoded"] = ["backends.xml.generator.generate / XmlGenerator (real code; output parsed back and translated to z3 through ast2z3)"]
     cov["bounds"] = (f"{len(trs)} arithmetic expression trees (all ordered operator pairs of + - * / ^ in both nestings, unary +/-, sin/cos/tan/der/time, n-ary calls, equal sibling operands, "
                      f"numeric literals needing many digits or exponents); {len(ctrs)} call trees (user functions of 1-3 arguments, smooth/noEvent/delay/pre, equal sibling operands, nested calls); "
-                     f"{len(btrs)} Boolean trees (6 relational operators, not/and/or in both nestings, Boolean literals, pre/edge); "
+                     f"{len(btrs)} Boolean trees (6 relational operators, not/and/or in both nestings, Boolean literals, pre/edge); {len(ltrs)} of these trees again as the LEFT side of the equation; "
                      f"{len(syms)} + {len(symx)} variable declarations (Real/Integer/Boolean/String x continuous/discrete/parameter/constant x start in none/literal/negative literal/reference/expression "
                      "x value in the same kinds x fixed absent/true/false, modifier order, min/max/nominal present, long literals); "
                      f"{len(structs)} whole models: {len(SECTION_LAYOUTS)} layouts of equation / initial equation sections x {len(WHEN_FORMS)} when-equation forms (equations and reinit in the body, "
